@@ -103,11 +103,15 @@ def instructions_for(year, fname, form, cat):
                     texts[ln] = (sp, 'template')
     tr = TRANSCRIBED.get('all', {}).get(base, {})
     tr = dict(tr, **TRANSCRIBED.get(str(year), {}).get(base, {}))
+    names = tr.get('_names', {})
+    ws_label = {}
     for ln, entry in tr.items():
         if ln.startswith('_'):
             continue
         if f'{fname}.{ln}' in cat.lines:
-            texts[ln] = (f'{ln}. ' + entry['text'], 'transcribed: ' + entry['source'])
+            lab = entry.get('label', ln)
+            ws_label[ln] = lab
+            texts[ln] = (f'{lab}. ' + entry['text'], 'transcribed: ' + entry['source'])
             if ln not in labels:
                 labels.append(ln)
     if base == 'nc_d-400' and form.pdf_file():
@@ -117,7 +121,10 @@ def instructions_for(year, fname, form, cat):
                 labels.append(ln)
     order = tr.get('_order') or labels
     for ln, (text, src) in texts.items():
-        ins = instr.parse(text, ln, order)
+        ins = instr.parse(text, ws_label.get(ln, ln), order)
+        if ins is not None and names and ln in ws_label and src.startswith('transcribed'):
+            # worksheet numbering -> the line names the form uses
+            ins.expr = instr.rename(ins.expr, lambda l: names.get(l, l))
         if ins is not None and ins.expr is not None and ins.expr[0] == 'addrows':
             # "Add the amounts on line 1": the per-payer rows <n>_amount_<k> of this form
             rows = sorted((l.base_name() for l in form.fields() if re.match(rf'^{ins.expr[1]}_amount_\d+$', l.base_name())),
